@@ -28,36 +28,45 @@ SPEC SIDE: `Model/SpecTokens.lean` defines `specTok` (pest's token emission on t
 semantics) and `pruneAtomic`; `C02_specTok_forget` (= `specTok_forget`): its token-free projection
 is the `spec` of C01.
 
-TARGET THEOREM (full statement; NOT proved here in general — its proof rides on the C01 simulation
-`Lemmas/Sim*.lean` and is done there):
+THE TOKEN-TREE THEOREM (full strength; proof: the simulation with tokens `Tok.tokSim_all` of
+`Lemmas/SimTok.lean`, which extends C01's simulation by the token component — all expressions incl.
+lookahead, implicit skipping with defined WHITESPACE / COMMENT, every built-in incl. `EOI`, all six
+repetition forms, stack operations; all rule kinds in any nesting; every typed fuel and every Spec
+fuel, every cursor, stack, tracker):
+* `C02_tree_expr` — expression level: whenever the typed run of `genExpr pg sk e` (flag meaning the
+  Spec's atomicity: `sk.eval inh = am.na`) and `specTok` both succeed, they end at the same cursor with
+  the same stack and, outside an `Atomic` context, `tokens (gen pg) v = pruneAtomic pg ts`.
+* `C02_tree_expr_verdict` — … and they never disagree on the verdict (ok vs fail).
+* `C02_tree` — entry point `try_parse_partial` of rule `name` vs `specTokPartial` (pest's
+  `Parser::parse(Rule::name, input)`): token tree equal after pruning, same end cursor, same stack.
+* `C02_tree_verdict` — entry point, verdicts.
+* `C02_tree_full` — entry point `try_parse` (trailing skip + end-of-input step): its value is the
+  value of the prefix parse, so its token tree is pest's pruned; the tokens of the trailing skip are
+  dropped and the `EOI` step only touches the tracker (no token).
+* `C02_tree_full_cursor` — the trailing skip of `try_parse` ends where pest's implicit skip ends.
+"Whenever both give a definite answer" is the compatibility form; that a definite answer of one side
+forces one of the other is C01 (`C01_forward`, `C01_backward`).
 
-  theorem C02_tree (pg : PGrammar) (uni : Uni) (n N : Nat) (name : String) (k : Nat) (i i' j' : Inp)
-      (m' : M) (v : Val) (S' : List Sp) (ts : List Token)
-      (hk : pg.indexOf name = some k) (hws : SkipRulesAtomicLike pg)
-      (h1 : tryParsePartial (gen pg) uni n (k+1) i = .ok i' m' v)
-      (h2 : specTokPartial pg uni N name i = .ok j' S' ts) :
-      tokens (gen pg) v = pruneAtomic pg ts
-
-  (`SkipRulesAtomicLike pg`: every rule named WHITESPACE / COMMENT is `@`/`$` or its body has no
-  sequence, repetition or rule reference — finding F-WS, cases (b) and (c) of DESIGN.md §7:
-  without it pest-typed keeps inner tokens of skip rules that pest, forcing Atomic there, drops;
-  `C02_counterexample_ws_inner` below is case (c) on the typed side.)
-
-PROVED PART of the target: `C02_tree_partial` (with `C02_frag_agree`) — the full equation, all
-rule kinds and nestings of `@`/`$`/`!`/silent/normal rules, `EOI`, sequences, choices, optionals, all
-six repetition forms, `PUSH`, `PEEK[a..b]`, the optimizer's `Skip` and `RestoreOnErr` nodes, every
-input, every fuel — for the LOOKAHEAD-FREE, SKIP-FREE fragment (`SkipFree pg`: the grammar defines
-neither WHITESPACE nor COMMENT, no rule uses `&e`/`!e` or a built-in other than `EOI`).  What is
-missing for the full statement: implicit skipping with defined skip rules (needs the relation
-between the `INHERITED` flag and pest's atomicity, `C07_inherit_chain`), lookahead (typed `Negative`
-runs the check path), the other built-ins (ANY, SOI, PEEK, POP, …, ASCII_*, unicode classes), and
-the existence half (a fuel for which the other side returns) — all part of C01's simulation.
+Hypothesis `SkipRulesAtomicLike pg` (finding F-WS): the rule a skip name WHITESPACE / COMMENT resolves
+to is `@` / `$`, or has a "simple" body (`SimpleSkipBody`: no sequence, no repetition, no reference
+to a rule of the grammar, no `EOI`; literals, ranges, other built-ins, choice, optional, lookahead,
+`PUSH`, stack slices allowed; defined in Lemmas/SkipLike.lean).  It is the hypothesis of C01 too, and is
+WEAKER than `SkipRulesAtomic` "every rule so named is `@` / `$`" (`C02_atomicLike_of_atomic`):
+`WHITESPACE = { " " }`, `WHITESPACE = _{ " " | "\t" }`, `COMMENT = !{ "#" }` satisfy it
+(`C02_tree_ws_normal_example`: the grammar `s_skip_tokens` of the T-run corpus).  What it excludes is needed:
+pest forces `Atomic` inside rules with these names, pest-typed gives them their declared kind, so
+- a sequence / repetition in the body skips on one side only (`C01_counterexample_F_WS`),
+- a rule called from the body emits a token on one side only (`C02_counterexample_ws_inner`),
+- so does `EOI`, which is a rule call (`C02_counterexample_ws_eoi`).
+`C02_skipFree_atomicLike`: grammars without skip rules satisfy the hypothesis, so
+`C02_tree_partial` (kept, with its independent proof `frag_sim`) is a special case of `C02_tree`.
 
 `C02_tree_example` checks the equation on a concrete grammar with a `$` rule, a nested normal rule,
-a lookahead and a non-silent WHITESPACE (outside the fragment).
+a lookahead and a non-silent WHITESPACE by evaluation.
 -/
 import PestTyped.Lemmas.SkipSites
 import PestTyped.Lemmas.SpecTokensLemmas
+import PestTyped.Lemmas.SimTok
 import PestTyped.Props.C15
 namespace PestTyped
 
@@ -472,5 +481,293 @@ example (i' j' : Inp) (m' : M) (v : Val) (S' : List Sp) (ts : List Token)
     (h2 : specTokPartial c02FragPG c02U 20 "a" c02FragInput = .ok j' S' ts) :
     tokens (gen c02FragPG) v = pruneAtomic c02FragPG ts :=
   (C02_tree_partial c02FragPG c02U c02Frag_skipFree 20 20 "a" 0 _ i' j' m' v S' ts (by decide) h1 h2).1
+
+/-! ### the token-tree theorem at full strength -/
+
+/-- The stronger `SkipRulesAtomic` (every rule named WHITESPACE / COMMENT is `@` / `$`) implies the
+hypothesis used here (and by C01). -/
+theorem C02_atomicLike_of_atomic (pg : PGrammar)
+    (h : ∀ r ∈ pg, (r.name = "WHITESPACE" ∨ r.name = "COMMENT") → (r.kind = .atomic ∨ r.kind = .compoundAtomic)) :
+    SkipRulesAtomicLike pg :=
+  SkipRulesAtomicLike.of_atomic pg h
+
+/-- Grammars of the skip-free fragment satisfy the hypothesis (vacuously: no skip rule). -/
+theorem C02_skipFree_atomicLike (pg : PGrammar) (hsf : SkipFree pg) : SkipRulesAtomicLike pg :=
+  SkipRulesAtomicLike.of_undefined pg hsf.noW hsf.noC
+
+/-- C02 (expression level).  For every pest expression `e`: if the typed run of the generated node
+`genExpr pg sk e` — under an `INHERITED` argument such that the static flag means pest's atomicity
+(`sk.eval inh = am.na`) — succeeds with value `v`, and pest's token semantics succeeds with token
+forest `ts` (at any two fuels), then both end at the same cursor with the same stack and, unless
+the call is made in pest's `Atomic` mode (where pest-typed is on the check path of an `@` rule),
+the token forest of `v` is `ts` with the descendants of `@` / `$` tokens removed. -/
+theorem C02_tree_expr (pg : PGrammar) (uni : Uni) (hws : SkipRulesAtomicLike pg) (n N : Nat) (e : PExpr)
+    (sk : Flag) (inh : Bool) (am : Atom3) (i : Inp) (m : M) (hsk : sk.eval inh = am.na)
+    (i' : Inp) (m' : M) (v : Val) (j' : Inp) (S' : List Sp) (ts : List Token)
+    (h1 : parse (gen pg) uni n inh (genExpr pg sk e) i m = .ok i' m' v)
+    (h2 : specTok pg uni N am e i m.stk = .ok j' S' ts) :
+    i' = j' ∧ m'.stk = S' ∧ (am ≠ .atomic → tokens (gen pg) v = pruneAtomic pg ts) := by
+  have h := Tok.tokSim_all (uni := uni) hws n N e sk inh am i m hsk
+  rw [h1, h2] at h
+  obtain ⟨g1, g2, g3⟩ := SimG.ok_ok.mp h
+  exact ⟨g1, g2, fun ha => by simpa using g3 ha⟩
+
+/-- C02 (expression level, verdicts): a typed failure is never a success of pest's semantics, a typed
+success never a failure. -/
+theorem C02_tree_expr_verdict (pg : PGrammar) (uni : Uni) (hws : SkipRulesAtomicLike pg) (n N : Nat) (e : PExpr)
+    (sk : Flag) (inh : Bool) (am : Atom3) (i : Inp) (m : M) (hsk : sk.eval inh = am.na) :
+    (∀ mf, parse (gen pg) uni n inh (genExpr pg sk e) i m = .fail mf →
+      ∀ j' S' ts, specTok pg uni N am e i m.stk ≠ .ok j' S' ts) ∧
+    (∀ i' m' v, parse (gen pg) uni n inh (genExpr pg sk e) i m = .ok i' m' v →
+      specTok pg uni N am e i m.stk ≠ .fail) := by
+  have h := Tok.tokSim_all (uni := uni) hws n N e sk inh am i m hsk
+  constructor
+  · intro mf h1 j' S' ts h2
+    rw [h1, h2] at h
+    exact SimG.fail_ok h
+  · intro i' m' v h1 h2
+    rw [h1, h2] at h
+    exact SimG.ok_fail h
+
+/-- C02 (the token-tree theorem).  `R::try_parse_partial(input)` for the rule named `name` (the
+`k`-th rule, rule id `k+1`) against pest's `Parser::parse(Rule::name, input)`: whenever both succeed
+(at any two fuels), the token tree of the typed value is pest's token tree with the descendants of
+`@` / `$` tokens removed — rule, start, end, children in order, at every depth — and both stop at the
+same cursor with the same stack. -/
+theorem C02_tree (pg : PGrammar) (uni : Uni) (hws : SkipRulesAtomicLike pg) (n N : Nat) (name : String) (k : Nat)
+    (i i' j' : Inp) (m' : M) (v : Val) (S' : List Sp) (ts : List Token)
+    (hk : pg.indexOf name = some k)
+    (h1 : tryParsePartial (gen pg) uni n (k+1) i = .ok i' m' v)
+    (h2 : specTokPartial pg uni N name i = .ok j' S' ts) :
+    tokens (gen pg) v = pruneAtomic pg ts ∧ i' = j' ∧ m'.stk = S' := by
+  have e1 : genExpr pg .one (.ident name) = .ref (k+1) .one := by simp [genExpr, hk]
+  unfold tryParsePartial at h1
+  unfold specTokPartial at h2
+  rw [← e1] at h1
+  obtain ⟨g1, g2, g3⟩ := C02_tree_expr pg uni hws n N (.ident name) .one true .nonAtomic i (M.init i) rfl
+    i' m' v j' S' ts h1 h2
+  exact ⟨g3 (by decide), g1, g2⟩
+
+/-- C02 (entry point, verdicts). -/
+theorem C02_tree_verdict (pg : PGrammar) (uni : Uni) (hws : SkipRulesAtomicLike pg) (n N : Nat) (name : String)
+    (k : Nat) (i : Inp) (hk : pg.indexOf name = some k) :
+    (∀ mf, tryParsePartial (gen pg) uni n (k+1) i = .fail mf →
+      ∀ j' S' ts, specTokPartial pg uni N name i ≠ .ok j' S' ts) ∧
+    (∀ i' m' v, tryParsePartial (gen pg) uni n (k+1) i = .ok i' m' v →
+      specTokPartial pg uni N name i ≠ .fail) := by
+  have e1 : genExpr pg .one (.ident name) = .ref (k+1) .one := by simp [genExpr, hk]
+  have h := C02_tree_expr_verdict pg uni hws n N (.ident name) .one true .nonAtomic i (M.init i) rfl
+  rw [e1] at h
+  exact h
+
+/-- A successful full parse `R::try_parse(input)` returns the value of the prefix parse, with the
+cursor at the end of the input: the trailing skip's value is dropped and the end-of-input step
+(`eoiStep`) only touches the tracker. -/
+theorem tryParse_ok_partial (g : NodeGrammar) (uni : Uni) (n : Nat) (r : RuleId) (i i' : Inp) (m' : M) (v : Val)
+    (h : tryParse g uni n r i = .ok i' m' v) :
+    i'.atEnd = true ∧ ∃ d i1 m1, g.rule? r = some d ∧ tryParsePartial g uni n r i = .ok i1 m1 v ∧
+      ((noTrailingSkip r d = true ∧ i' = i1) ∨
+       (noTrailingSkip r d = false ∧ ∃ m2 sv, parse g uni n false g.skipped i1 m1 = .ok i' m2 sv)) := by
+  unfold tryParse at h
+  split at h
+  · cases h
+  · next d hd =>
+    split at h
+    · cases h
+    · cases h
+    · next i1 m1 v1 h1 =>
+      split at h
+      · next hs =>
+        cases hb : i1.atEnd <;> simp [eoiStep, hb] at h
+        obtain ⟨h0, _, hv⟩ := h; subst h0 hv
+        exact ⟨hb, d, i1, m1, hd, h1, Or.inl ⟨hs, rfl⟩⟩
+      · next hs =>
+        split at h
+        · cases h
+        · cases h
+        · next i2 m2 v2 h2 =>
+          cases hb : i2.atEnd <;> simp [eoiStep, hb] at h
+          obtain ⟨h0, _, hv⟩ := h; subst h0 hv
+          exact ⟨hb, d, i1, m1, hd, h1, Or.inr ⟨by simpa using hs, m2, v2, h2⟩⟩
+
+/-- C02 (full entry point).  `R::try_parse(input)` — prefix parse, trailing implicit skip unless the
+rule is `@` / `$`, end-of-input test — against pest's parse of `name`: whenever both succeed, the
+token tree of the typed value is pest's token tree pruned (the trailing skip contributes no token to
+the value, the `EOI` step emits none), and the typed cursor is at the end of the input. -/
+theorem C02_tree_full (pg : PGrammar) (uni : Uni) (hws : SkipRulesAtomicLike pg) (n N : Nat) (name : String)
+    (k : Nat) (i i' j' : Inp) (m' : M) (v : Val) (S' : List Sp) (ts : List Token)
+    (hk : pg.indexOf name = some k)
+    (h1 : tryParse (gen pg) uni n (k+1) i = .ok i' m' v)
+    (h2 : specTokPartial pg uni N name i = .ok j' S' ts) :
+    tokens (gen pg) v = pruneAtomic pg ts ∧ i'.atEnd = true := by
+  obtain ⟨hend, d, i1, m1, _, hp, _⟩ := tryParse_ok_partial (gen pg) uni n (k+1) i i' m' v h1
+  exact ⟨(C02_tree pg uni hws n N name k i i1 j' m1 v S' ts hk hp h2).1, hend⟩
+
+/-- C02 (full entry point, cursor).  Where `try_parse` stops: at pest's end cursor for `@` / `$`
+entry rules (no trailing skip), otherwise where pest's implicit skip `(WHITESPACE | COMMENT)*`, run
+from pest's end cursor, stops (whenever that skip answers). -/
+theorem C02_tree_full_cursor (pg : PGrammar) (uni : Uni) (hws : SkipRulesAtomicLike pg) (n N N2 : Nat)
+    (name : String) (k : Nat) (i i' j' : Inp) (m' : M) (v : Val) (S' : List Sp) (ts : List Token)
+    (hk : pg.indexOf name = some k)
+    (h1 : tryParse (gen pg) uni n (k+1) i = .ok i' m' v)
+    (h2 : specTokPartial pg uni N name i = .ok j' S' ts) :
+    i' = j' ∨ (∀ j2 S2 t2, Tok.specTokSkipN pg uni N2 j' S' = .ok j2 S2 t2 → i' = j2) ∧
+      Tok.specTokSkipN pg uni N2 j' S' ≠ .fail := by
+  obtain ⟨_, d, i1, m1, _, hp, hcase⟩ := tryParse_ok_partial (gen pg) uni n (k+1) i i' m' v h1
+  obtain ⟨_, e1, e2⟩ := C02_tree pg uni hws n N name k i i1 j' m1 v S' ts hk hp h2
+  subst e1 e2
+  rcases hcase with ⟨_, h⟩ | ⟨_, m2, sv, hs⟩
+  · exact Or.inl h
+  · right
+    have hI : ∀ k', k' ≤ n → Tok.IdentSkip pg uni k' :=
+      fun k' _ => Tok.identSkip_of (n := k') hws (fun j _ => Tok.tokSim_all hws j) k' (by omega)
+    have hsim := Tok.skipped_simT (uni := uni) hI N2 i1 m1
+    rw [hs] at hsim
+    constructor
+    · intro j2 S2 t2 h3
+      rw [h3] at hsim
+      exact (SimG.ok_ok.mp hsim).1
+    · intro h3
+      rw [h3] at hsim
+      exact SimG.ok_fail hsim
+
+/-- `C02_tree_partial` (the skip-free, lookahead-free fragment) is a special case of `C02_tree`. -/
+example (pg : PGrammar) (uni : Uni) (hsf : SkipFree pg) (n N : Nat) (name : String) (k : Nat)
+    (i i' j' : Inp) (m' : M) (v : Val) (S' : List Sp) (ts : List Token) (hk : pg.indexOf name = some k)
+    (h1 : tryParsePartial (gen pg) uni n (k+1) i = .ok i' m' v)
+    (h2 : specTokPartial pg uni N name i = .ok j' S' ts) :
+    tokens (gen pg) v = pruneAtomic pg ts ∧ i' = j' ∧ m'.stk = S' :=
+  C02_tree pg uni (C02_skipFree_atomicLike pg hsf) n N name k i i' j' m' v S' ts hk h1 h2
+
+/-! ### non-vacuity of `C02_tree`: non-silent skip rules of every admitted shape -/
+
+/-- The grammar `s_skip_tokens` of the T-run corpus, extended:
+`main = { "x" ~ &b ~ b* ~ d ~ EOI }  b = ${ "y" ~ c }  c = { "z" }  d = @{ c ~ c }
+WHITESPACE = { " " }  COMMENT = ${ "#" }` — WHITESPACE is a NORMAL rule (not `@`/`$`, so the stronger
+`SkipRulesAtomic` does not hold) with a simple body. -/
+def c02SkPG : PGrammar :=
+  [{ name := "main", kind := .normal,
+     expr := .seq (.str ['x']) (.seq (.posPred (.ident "b")) (.seq (.rep (.ident "b"))
+       (.seq (.ident "d") (.ident "EOI")))) },
+   { name := "b", kind := .compoundAtomic, expr := .seq (.str ['y']) (.ident "c") },
+   { name := "c", kind := .normal, expr := .str ['z'] },
+   { name := "d", kind := .atomic, expr := .seq (.ident "c") (.ident "c") },
+   { name := "WHITESPACE", kind := .normal, expr := .str [' '] },
+   { name := "COMMENT", kind := .compoundAtomic, expr := .str ['#'] }]
+
+def c02SkG : NodeGrammar :=
+  { rules := [eoiDef,
+      { name := "main", atom := .inherited, emit := .both, boxed := true,
+        body := .seq .inh [.str ['x'], .pos (.ref 2 .inh), .rep .inh 0 none (.ref 2 .inh), .ref 4 .inh,
+          .ref 0 .one] },
+      { name := "b", atom := .atomic, emit := .both, boxed := true,
+        body := .seq .zero [.str ['y'], .ref 3 .zero] },
+      { name := "c", atom := .inherited, emit := .both, boxed := true, body := .str ['z'] },
+      { name := "d", atom := .atomic, emit := .span, boxed := true,
+        body := .seq .zero [.ref 3 .zero, .ref 3 .zero] },
+      { name := "WHITESPACE", atom := .inherited, emit := .both, boxed := true, body := .str [' '] },
+      { name := "COMMENT", atom := .atomic, emit := .both, boxed := true, body := .str ['#'] }],
+    skipped := .atomicRepeat (.choice [.ref 5 .zero, .ref 6 .zero]) }
+
+theorem c02Sk_gen : gen c02SkPG = c02SkG := by
+  simp [gen, genRule, genExpr, genSeqSpine, genSkipped, PGrammar.indexOf, PGrammar.indexOf.go,
+    c02SkPG, c02SkG, kindAtomicity, kindEmission, atomFlag, builtinNode]
+
+/-- The hypothesis of `C02_tree` holds: WHITESPACE has a simple body, COMMENT is `$`. -/
+theorem c02Sk_like : SkipRulesAtomicLike c02SkPG := by
+  intro nm r hnm hf
+  rcases hnm with rfl | rfl
+  · simp [PGrammar.find?, PGrammar.indexOf, PGrammar.indexOf.go, c02SkPG] at hf
+    subst hf
+    exact Or.inr (by simp [SimpleSkipBody])
+  · simp [PGrammar.find?, PGrammar.indexOf, PGrammar.indexOf.go, c02SkPG] at hf
+    subst hf
+    exact Or.inl (Or.inr rfl)
+
+/-- … while the stronger hypothesis `SkipRulesAtomic` does not (WHITESPACE is a normal rule). -/
+theorem c02Sk_not_atomic :
+    ¬ (∀ r ∈ c02SkPG, (r.name = "WHITESPACE" ∨ r.name = "COMMENT") → (r.kind = .atomic ∨ r.kind = .compoundAtomic)) := by
+  intro h
+  have := h ⟨"WHITESPACE", .normal, .str [' ']⟩ (by simp [c02SkPG]) (Or.inl rfl)
+  simp at this
+
+/-- The input `x yz #yz zz`. -/
+def c02SkInput : Inp := c02In ['x', ' ', 'y', 'z', ' ', '#', 'y', 'z', ' ', 'z', 'z']
+
+set_option maxRecDepth 100000 in
+/-- Both sides succeed on `x yz #yz zz`: pest's tree has the WHITESPACE and COMMENT tokens between
+the elements (none for the lookahead), `c` under the `$` rule `b`, nothing under the `@` rule `d`,
+`EOI` last; the typed tree is the same with the children of `b` removed. -/
+theorem C02_tree_ws_normal_example :
+    (specTokPartial c02SkPG c02U 20 "main" c02SkInput).toks? =
+      some [.mk 1 0 11 [.mk 5 1 2 [], .mk 2 2 4 [.mk 3 3 4 []], .mk 5 4 5 [], .mk 6 5 6 [],
+        .mk 2 6 8 [.mk 3 7 8 []], .mk 5 8 9 [], .mk 4 9 11 [], .mk 0 11 11 []]] ∧
+    (tryParsePartial (gen c02SkPG) c02U 20 1 c02SkInput).val?.map (tokens (gen c02SkPG)) =
+      some [.mk 1 0 11 [.mk 5 1 2 [], .mk 2 2 4 [], .mk 5 4 5 [], .mk 6 5 6 [],
+        .mk 2 6 8 [], .mk 5 8 9 [], .mk 4 9 11 [], .mk 0 11 11 []]] := by
+  rw [c02Sk_gen]; decide
+
+/-- `C02_tree` applies to that run (and to the full entry point `try_parse`). -/
+example (i' j' : Inp) (m' : M) (v : Val) (S' : List Sp) (ts : List Token)
+    (h1 : tryParsePartial (gen c02SkPG) c02U 20 1 c02SkInput = .ok i' m' v)
+    (h2 : specTokPartial c02SkPG c02U 20 "main" c02SkInput = .ok j' S' ts) :
+    tokens (gen c02SkPG) v = pruneAtomic c02SkPG ts ∧ i' = j' ∧ m'.stk = S' :=
+  C02_tree c02SkPG c02U c02Sk_like 20 20 "main" 0 _ i' j' m' v S' ts (by decide) h1 h2
+
+set_option maxRecDepth 100000 in
+/-- The full entry point succeeds on that input (so `C02_tree_full` is not vacuous). -/
+example : (tryParse (gen c02SkPG) c02U 20 1 c02SkInput).val?.map (tokens (gen c02SkPG)) =
+    some [.mk 1 0 11 [.mk 5 1 2 [], .mk 2 2 4 [], .mk 5 4 5 [], .mk 6 5 6 [],
+      .mk 2 6 8 [], .mk 5 8 9 [], .mk 4 9 11 [], .mk 0 11 11 []]] := by
+  rw [c02Sk_gen]; decide
+
+example (i' j' : Inp) (m' : M) (v : Val) (S' : List Sp) (ts : List Token)
+    (h1 : tryParse (gen c02SkPG) c02U 20 1 c02SkInput = .ok i' m' v)
+    (h2 : specTokPartial c02SkPG c02U 20 "main" c02SkInput = .ok j' S' ts) :
+    tokens (gen c02SkPG) v = pruneAtomic c02SkPG ts ∧ i'.atEnd = true :=
+  C02_tree_full c02SkPG c02U c02Sk_like 20 20 "main" 0 _ i' j' m' v S' ts (by decide) h1 h2
+
+/-- The earlier example grammar `c02PG` (normal `WHITESPACE = { " " }`) satisfies the hypothesis too. -/
+theorem c02_like : SkipRulesAtomicLike c02PG := by
+  intro nm r hnm hf
+  rcases hnm with rfl | rfl
+  · simp [PGrammar.find?, PGrammar.indexOf, PGrammar.indexOf.go, c02PG] at hf
+    subst hf
+    exact Or.inr (by simp [SimpleSkipBody])
+  · simp [PGrammar.find?, PGrammar.indexOf, PGrammar.indexOf.go, c02PG] at hf
+
+/-- The hypothesis excludes the F-WS (c) witness: `WHITESPACE = { wsx }` calls a rule. -/
+theorem c02Ws_not_like : ¬ SkipRulesAtomicLike c02WsPG := by
+  intro h
+  have := h "WHITESPACE" ⟨"WHITESPACE", .normal, .ident "wsx"⟩ (Or.inl rfl)
+    (by simp [PGrammar.find?, PGrammar.indexOf, PGrammar.indexOf.go, c02WsPG])
+  simp [SimpleSkipBody, PGrammar.defines, PGrammar.indexOf, PGrammar.indexOf.go, c02WsPG] at this
+
+/-! ### `EOI` inside a skip rule (why `SimpleSkipBody` excludes it) -/
+
+/-- `WHITESPACE = { EOI }   m = { WHITESPACE }`. -/
+def c02WsEoiPG : PGrammar :=
+  [{ name := "WHITESPACE", kind := .normal, expr := .ident "EOI" },
+   { name := "m", kind := .normal, expr := .ident "WHITESPACE" }]
+
+def c02WsEoiG : NodeGrammar :=
+  { rules := [eoiDef,
+      { name := "WHITESPACE", atom := .inherited, emit := .both, boxed := true, body := .ref 0 .one },
+      { name := "m", atom := .inherited, emit := .both, boxed := true, body := .ref 1 .inh }],
+    skipped := .atomicRepeat (.ref 1 .zero) }
+
+theorem c02WsEoi_gen : gen c02WsEoiPG = c02WsEoiG := by
+  simp [gen, genRule, genExpr, genSkipped, PGrammar.indexOf, PGrammar.indexOf.go,
+    c02WsEoiPG, c02WsEoiG, kindAtomicity, kindEmission, atomFlag, builtinNode]
+
+/-- `EOI` is a rule call: inside a rule NAMED WHITESPACE pest runs it in `Atomic` mode and emits no
+token for it; the typed parser keeps the `EOI` token under the WHITESPACE token.  On the empty input
+`m` gives `m[WHITESPACE]` in pest and `m[WHITESPACE[EOI]]` in pest-typed. -/
+theorem C02_counterexample_ws_eoi :
+    (tryParsePartial (gen c02WsEoiPG) c02U 20 2 (c02In [])).val?.map (tokens (gen c02WsEoiPG)) =
+      some [.mk 2 0 0 [.mk 1 0 0 [.mk 0 0 0 []]]] ∧
+    (specTokPartial c02WsEoiPG c02U 20 "m" (c02In [])).toks?.map (pruneAtomic c02WsEoiPG) =
+      some [.mk 2 0 0 [.mk 1 0 0 []]] := by
+  rw [c02WsEoi_gen]; decide
 
 end PestTyped
